@@ -4,6 +4,8 @@ use crate::sut::Sut;
 pub mod c02;
 pub mod c03;
 pub mod c04;
+pub mod c06;
+pub mod c08;
 pub mod c11;
 pub mod c12;
 pub mod c13;
@@ -56,6 +58,8 @@ dispatch! {
     "C02" => c02,
     "C03" => c03,
     "C04" => c04,
+    "C06" => c06,
+    "C08" => c08,
     "C11" => c11,
     "C12" => c12,
     "C13" => c13,
